@@ -1,7 +1,83 @@
 (* Test-case dispatch for model R (run-time model). Opcodes 100-199. *)
-From AJ Require Import Common.Util Extract.Codec.
+From AJ Require Import Common.Util Extract.Codec Run.RModel.
+
+Definition rd_optN : reader (option N) := rd_opt rd_N.
+
+Definition rd_jcfg : reader jcfg :=
+  p <- rd_nat ;; sc <- rd_bool ;; cr <- rd_bool ;; fo <- rd_bool ;; rq <- rd_nats ;;
+  du <- rd_optN ;; ou <- rd_bool ;; cd <- rd_N ;; sd <- rd_optN ;;
+  w <- rd_nat ;; t <- rd_optN ;; st <- rd_optN ;;
+  ret (mkJ p sc cr fo rq du (if ou then OExc else ORet) cd sd w t st).
+
+Definition rd_cfg : reader cfg :=
+  pr <- rd_bool ;; js <- rd_list rd_jcfg ;; ret (mkCfg js pr).
+
+Definition rd_wkind : reader wkind :=
+  k <- rd_N ;;
+  ret (match k with 0%N => KMain | 1%N => KTidy | 2%N => KCTidy | 3%N => KShut | _ => KShTidy end).
+
+Definition rd_verdict : reader verdict :=
+  v <- rd_N ;; t <- rd_nat ;;
+  ret (match v with 0%N => VTrue | 1%N => VFalse | 2%N => VRaise t | _ => VCancelled end).
+
+Definition rd_sdres : reader sdres :=
+  v <- rd_N ;;
+  ret (match v with 0%N => SRTrue | 1%N => SRFalse | 2%N => SRNone | _ => SRCancelled end).
+
+Definition rd_out : reader out :=
+  t <- rd_N ;;
+  match t with
+  | 1%N => j <- rd_nat ;; ret (OCreate j)
+  | 2%N => j <- rd_nat ;; ret (OHCreate j)
+  | 3%N => s <- rd_nat ;; i <- rd_bool ;; ret (OSdBegin s i)
+  | 4%N => s <- rd_nat ;; k <- rd_wkind ;; ids <- rd_nats ;; to <- rd_optN ;; ret (OWaitCall s k ids to)
+  | 5%N => s <- rd_nat ;; r <- rd_sdres ;; ret (OSdEnd s r)
+  | 6%N => s <- rd_nat ;; v <- rd_verdict ;; ret (OEnd s v)
+  | _ => fun _ => None
+  end.
+
+Definition rd_jview : reader jview :=
+  i <- rd_nat ;; a <- rd_bool ;; b <- rd_bool ;; c <- rd_bool ;; d <- rd_bool ;; r <- rd_nat ;; e <- rd_nat ;;
+  ret (mkJv i a b c d r e).
+Definition rd_sview : reader sview :=
+  i <- rd_nat ;; a <- rd_bool ;; b <- rd_bool ;; ret (mkSv i a b).
+
+Definition rd_event : reader event :=
+  t <- rd_N ;;
+  match t with
+  | 1%N => s <- rd_nat ;; o <- rd_list rd_out ;; ret (EBegin s o)
+  | 2%N => s <- rd_nat ;; k <- rd_wkind ;; d <- rd_nats ;; o <- rd_list rd_out ;; ret (EWake s k d o)
+  | 3%N => s <- rd_nat ;; k <- rd_wkind ;; o <- rd_list rd_out ;; ret (ECancelled s k o)
+  | 4%N => s <- rd_nat ;; o <- rd_list rd_out ;; ret (ESdStart s o)
+  | 5%N => j <- rd_nat ;; ret (EStart j)
+  | 6%N => j <- rd_nat ;; oc <- rd_bool ;; ret (EFinish j (if oc then OExc else ORet))
+  | 7%N => j <- rd_nat ;; ret (ECancelHit j)
+  | 8%N => j <- rd_nat ;; ret (ECancelEnd j)
+  | 9%N => j <- rd_nat ;; ret (ECancelAbort j)
+  | 10%N => j <- rd_nat ;; ret (EGone j)
+  | 11%N => j <- rd_nat ;; ret (EHStart j)
+  | 12%N => j <- rd_nat ;; ret (EHEnd j)
+  | 13%N => j <- rd_nat ;; ret (EHCancel j)
+  | 14%N => j <- rd_nat ;; ret (EHGone j)
+  | 15%N => x <- rd_N ;; ret (ETick x)
+  | 16%N => x <- rd_N ;; ret (EGrace x)
+  | 17%N => jv <- rd_list rd_jview ;; sv <- rd_list rd_sview ;; ret (EPoll jv sv)
+  | _ => fun _ => None
+  end.
+
+(* result of replaying at one level: accepted?, index of the first rejected event, guard code,
+   and whether the final state is terminal *)
+Definition replay (lvl : nat) (c : cfg) (h : list event) : list N :=
+  let '(s, r) := run_diag lvl c init h 0 in
+  match r with
+  | None => [1%N; 0%N; 0%N; if terminal c s then 1%N else 0%N]
+  | Some (i, code) => [0%N; N.of_nat i; N.of_nat code; 0%N]
+  end.
 
 Definition run_rcase (op : N) : reader (list N) :=
   match op with
+  | 100%N => (* acceptance at the four levels *)
+      c <- rd_cfg ;; h <- rd_list rd_event ;;
+      ret (en_bool (wf c) ++ replay 0 c h ++ replay 1 c h ++ replay 2 c h ++ replay 3 c h)
   | _ => fun _ => None
   end.
